@@ -108,12 +108,16 @@ macro_rules! impl_facade {
                     }
                 }
                 let r = self.inner.$syscall(fn_ptr, $($arg, )*);
+                // the bookkeeping below takes locks and may log: the caller must still find the
+                // errno of its call, not the one of a contended futex or of a log write
+                let errno = $crate::syscall::get_errno();
                 if let Some(co) = $crate::scheduler::SchedulableCoroutine::current() {
                     if co.running().is_err() {
                         $crate::error!("{} change to running state failed !", co.name());
                     }
                 }
-                $crate::info!("exit syscall {} {:?} {}", syscall, r, std::io::Error::last_os_error());
+                $crate::info!("exit syscall {} {:?} {}", syscall, r, std::io::Error::from_raw_os_error(errno));
+                $crate::syscall::set_errno(errno);
                 r
             }
         }
@@ -795,8 +799,18 @@ pub extern "C" fn reset_errno() {
     set_errno(0);
 }
 
+// `set_errno`/`get_errno` are never inlined: their caller may be a coroutine frame that another
+// thread has resumed, and the address of errno must be the current thread's, not one the compiler
+// kept from before the context switch
+#[inline(never)]
 pub extern "C" fn set_errno(errno: c_int) {
     unsafe { errno_location().write(errno) }
+}
+
+#[must_use]
+#[inline(never)]
+pub extern "C" fn get_errno() -> c_int {
+    unsafe { errno_location().read() }
 }
 
 /// # Panics
